@@ -279,6 +279,25 @@ func NewWorld(cfg Config) (*World, error) {
 			t.Roles[string(creator)] = held
 			w.Stats.Probes["pre-history-creator"]++
 		}
+		// ... and for each fungible token one holder whose entry was frozen and un-frozen long ago:
+		// the un-freeze of the released code leaves the two property bytes behind as 00 00, so entries
+		// of that form are on disk whatever later versions write
+		for i, t := range u.Tokens {
+			if t.Kind != KindFungible || len(u.Users) == 0 || r.Intn(2) == 0 {
+				continue
+			}
+			holder := u.Users[(i*5+int(cfg.CfgSeed&3))%len(u.Users)]
+			sh := ShardOf(holder, cfg.NumShards)
+			acc, ok := w.Nodes[sh].Store.Accts[string(holder)]
+			if !ok {
+				acc = spec.NewAcct()
+				w.Nodes[sh].Store.Accts[string(holder)] = acc
+			}
+			qty := big.NewInt(int64(1 + r.Intn(500)))
+			acc.Storage[spec.TokenKey(t.ID, 0)] = spec.EncodeToken(&spec.Token{Value: qty, Properties: []byte{0, 0}})
+			w.Ghost.Supply[spec.TokenKey(t.ID, 0)] = new(big.Int).Set(qty)
+			w.Stats.Probes["pre-history-once-frozen-holder"]++
+		}
 	}
 	for _, d := range deployTrouble {
 		w.violate(spec.Violation{Props: spec.P("C12"), Clause: "deploy-roundtrip", Detail: d})
